@@ -76,6 +76,19 @@ def shape(ms, ws, path=""):
     return None
 
 
+def skeleton(t):
+    """names, kinds, disabled flags and attributes of a canonical tree (no words, ids, lines, template flags)"""
+    kind, name, _id, dis, _line, _merge, _tmpl, attrs, body = t
+    if kind == "d":
+        return [kind, name, dis, attrs]
+    kids = []
+    for c in body:
+        k = skeleton(c)
+        if not kids or kids[-1] != k:   # the number of instances of a .multiple object is not part of the shape
+            kids.append(k)
+    return [kind, name, dis, attrs, kids]
+
+
 def strip_disabled(o):
     objs = []
     for c in o.objects:
@@ -125,7 +138,7 @@ def run(ctx):
             ctx.sample({"master": mt, "sources": srcs})
     answers = [None] * len(reqs)
     if reqs and ctx.mode != "impl-only":
-        answers = ctx.corr("fetch", [c[0] for c in cases], reqs, impls)
+        answers = ctx.corr("fetch", [c[0] for c in cases], reqs, impls, proj=lambda r: skeleton(r[0]))
     for (case, f, cls), a, i in zip(cases, answers, impls):
         if f:
             mv = None if (a is None or a[0] in ("unsupported", "parse-failed")) else (a[:3] == i[:3])
